@@ -65,6 +65,9 @@ func (x *Exec) verifyFunction() {
 	// requires
 	se := x.specEnv(s, env, nil)
 	for i, r := range con.Requires {
+		if len(r.Props) > 0 && gProp != "" && !hasProp(r.Props, gProp) {
+			continue // a precondition stated for another property only (e.g. an induction hypothesis of that property)
+		}
 		se.where = fmt.Sprintf("%s requires#%d", con.Key, i)
 		t, err := x.evalSpec(se, r.Expr)
 		if err != nil {
@@ -447,6 +450,9 @@ func (x *Exec) applyContract(s *State, fn *ssa.Function, con *Contract, args []*
 		lbl := r.Label
 		if lbl == "" {
 			lbl = fmt.Sprint(i)
+		}
+		if len(r.Props) > 0 && gProp != "" && !hasProp(r.Props, gProp) {
+			continue // neither demanded nor assumed outside its property
 		}
 		se.where = fmt.Sprintf("call %s requires.%s", con.Key, lbl)
 		t, err := x.evalSpec(se, r.Expr)
